@@ -866,4 +866,460 @@ theorem nrun_inv (nm : Nat) (jobs : List NJob) (s0 : St) (hok : ∀ j ∈ jobs, 
       · exact h1
       · exact ih.2 st hst
 
+/-! ### Exceptions and temporary paths of the two-level run (wave 7) -/
+
+/-- An exception is in flight in (or has left) the shard: a task of its pool raised, or its driver thread is in
+or past the handlers with an exception. -/
+def NExc (p : NProc) : Prop :=
+  match p.pc with
+  | .pool => p.failed = true
+  | .closing _ b => b = true
+  | .fin1 b => b = true
+  | .fin2 b => b = true
+  | .done b => b = true
+  | _ => False
+
+/-- Nothing raised in the shard so far. -/
+def NNoExc (p : NProc) : Prop :=
+  p.failed = false ∧
+  match p.pc with
+  | .closing _ b => b = false
+  | .fin1 b => b = false
+  | .fin2 b => b = false
+  | .done b => b = false
+  | _ => True
+
+/-- Temporary paths of a shard by program counter of its driver thread, as long as no clean-up effect failed. -/
+def NClean (p : NProc) : Prop :=
+  match p.pc with
+  | .init => noTmp p.loc
+  | .fin2 _ => p.loc.fs.file .tmpFile = none
+  | .done _ => noTmp p.loc
+  | _ => True
+
+theorem settle_nexc {p : NProc} (h : NExc p) : NExc (settle p) := by
+  have h1 : NExc (settle1 p) := by
+    unfold settle1
+    split
+    · rename_i hpc; simp [NExc, hpc] at h
+    · exact h
+  have h2 : NExc (settle2 (settle1 p)) := by
+    generalize settle1 p = q at h1
+    unfold settle2
+    split
+    · rename_i hpc
+      split
+      · simp only [NExc, hpc] at h1; simpa [NExc] using h1
+      · exact h1
+    · exact h1
+  show NExc (settle3 (settle2 (settle1 p)))
+  generalize settle2 (settle1 p) = q at h2
+  unfold settle3
+  split
+  · rename_i exc hpc
+    simp only [NExc, hpc] at h2
+    subst h2
+    simp [NExc]
+  · exact h2
+
+theorem settle_nnoexc {p : NProc} (h : NNoExc p) : NNoExc (settle p) := by
+  have h1 : NNoExc (settle1 p) := by
+    unfold settle1
+    split
+    · exact ⟨h.1, by simp⟩
+    · exact h
+  have h2 : NNoExc (settle2 (settle1 p)) := by
+    generalize settle1 p = q at h1
+    unfold settle2
+    split
+    · split
+      · exact ⟨h1.1, by simpa using h1.1⟩
+      · exact h1
+    · exact h1
+  show NNoExc (settle3 (settle2 (settle1 p)))
+  generalize settle2 (settle1 p) = q at h2
+  unfold settle3
+  split
+  · rename_i exc hpc
+    have := h2.2
+    simp only [hpc] at this
+    subst this
+    exact ⟨h2.1, by simp⟩
+  · exact h2
+
+theorem settle_nclean {p : NProc} (h : NClean p) : NClean (settle p) := by
+  have h1 : NClean (settle1 p) := by
+    unfold settle1
+    split
+    · simp [NClean]
+    · exact h
+  have h2 : NClean (settle2 (settle1 p)) := by
+    generalize settle1 p = q at h1
+    unfold settle2
+    split
+    · split
+      · simp [NClean]
+      · exact h1
+    · exact h1
+  show NClean (settle3 (settle2 (settle1 p)))
+  generalize settle2 (settle1 p) = q at h2
+  unfold settle3
+  split
+  · rename_i exc hpc
+    cases exc <;> simp [NClean]
+  · exact h2
+
+/-- An exception that is in flight stays with the shard, whatever its driver thread does. -/
+theorem stepMain_nexc {nm : Nat} {sh sh' : St} {p0 p' : NProc} {o : Option Nat} {e : Eff}
+    (hs : stepMain nm sh p0 o = some (e, sh', p')) (h : NExc p0) : NExc p' := by
+  have hi := settle_nexc h
+  unfold stepMain at hs
+  generalize settle p0 = p at hs hi
+  dsimp only at hs
+  split at hs <;> (try cases hs) <;> simp_all [NExc]
+
+/-- A failing effect of the driver thread puts an exception in flight. -/
+theorem stepMain_fault {nm : Nat} {sh sh' : St} {p0 p' : NProc} {o : Option Nat} {e : Eff}
+    (hs : stepMain nm sh p0 o = some (e, sh', p')) (ho : o.isSome = true) : NExc p' := by
+  unfold stepMain at hs
+  generalize settle p0 = p at hs
+  dsimp only at hs
+  split at hs <;> (try cases hs) <;> simp_all [NExc]
+
+/-- A successful effect of the driver thread raises nothing. -/
+theorem stepMain_nnoexc {nm : Nat} {sh sh' : St} {p0 p' : NProc} {o : Option Nat} {e : Eff}
+    (hs : stepMain nm sh p0 o = some (e, sh', p')) (ho : o = none) (h : NNoExc p0) : NNoExc p' := by
+  subst ho
+  have hi := settle_nnoexc h
+  unfold stepMain at hs
+  generalize settle p0 = p at hs hi
+  dsimp only at hs
+  split at hs <;> (try cases hs) <;> simp_all [NNoExc]
+
+/-- A step of the driver thread that is not a failing clean-up effect keeps `NClean`. -/
+theorem stepMain_nclean {nm : Nat} {sh sh' : St} {p0 p' : NProc} {o : Option Nat} {e : Eff}
+    (hs : stepMain nm sh p0 o = some (e, sh', p')) (h : NClean p0)
+    (hok : o.isSome = true → e ≠ .removeTmp ∧ e ≠ .rmdirTmp) : NClean p' := by
+  have hi := settle_nclean h
+  unfold stepMain at hs
+  generalize settle p0 = p at hs hi
+  dsimp only at hs
+  split at hs <;> (try cases hs) <;> simp_all [NClean, noTmp, apply, upd]
+
+theorem settle1_failed (p : NProc) : (settle1 p).failed = p.failed := by unfold settle1; split <;> rfl
+
+theorem start_failed (p : NProc) (w i : Nat) : (startIfIdle p w i).failed = p.failed := by
+  unfold startIfIdle
+  split
+  · rfl
+  · split <;> rfl
+
+theorem doWk_failed (nm : Nat) (p : NProc) (x : Wk) (o : Option Nat) :
+    (doWk nm p x o).failed = (o.isSome || p.failed) := by
+  unfold doWk
+  cases o with
+  | some q => rfl
+  | none =>
+    simp only []
+    split <;> simp
+
+/-- A step of an inner worker: the driver thread is (still) inside the pool; the shard's `failed` flag is set iff
+the effect failed or it was set before. -/
+theorem stepWk_shape {nm : Nat} {p p' : NProc} {w i : Nat} {o : Option Nat} {e : Eff}
+    (hs : stepWk nm p w i o = some (e, p')) :
+    p'.pc = .pool ∧ (p.pc = .pool ∨ p.pc = .pre []) ∧ p'.failed = (o.isSome || p.failed) := by
+  unfold stepWk at hs
+  split at hs
+  · rename_i hpc
+    simp only [] at hs
+    split at hs
+    · rename_i x hfind
+      simp only [Option.some.injEq, Prod.mk.injEq] at hs
+      rcases hs with ⟨_, rfl⟩
+      refine ⟨?_, ?_, ?_⟩
+      · rw [(doWk_pc nm _ x o).1, (start_pc _ w i).1, hpc]
+      · unfold settle1 at hpc
+        split at hpc
+        · right; assumption
+        · left; exact hpc
+      · rw [doWk_failed, start_failed, settle1_failed]
+    · cases hs
+  · cases hs
+
+theorem stepWk_nexc {nm : Nat} {p p' : NProc} {w i : Nat} {o : Option Nat} {e : Eff}
+    (hs : stepWk nm p w i o = some (e, p')) (h : NExc p) : NExc p' := by
+  rcases stepWk_shape hs with ⟨h1, h2 | h2, h3⟩
+  · simp only [NExc, h2] at h
+    simp [NExc, h1, h3, h]
+  · simp [NExc, h2] at h
+
+theorem stepWk_fault {nm : Nat} {p p' : NProc} {w i : Nat} {o : Option Nat} {e : Eff}
+    (hs : stepWk nm p w i o = some (e, p')) (ho : o.isSome = true) : NExc p' := by
+  rcases stepWk_shape hs with ⟨h1, _, h3⟩
+  simp [NExc, h1, h3, ho]
+
+theorem stepWk_nnoexc {nm : Nat} {p p' : NProc} {w i : Nat} {o : Option Nat} {e : Eff}
+    (hs : stepWk nm p w i o = some (e, p')) (ho : o = none) (h : NNoExc p) : NNoExc p' := by
+  subst ho
+  rcases stepWk_shape hs with ⟨h1, _, h3⟩
+  exact ⟨by simpa [h.1] using h3, by simp [h1]⟩
+
+theorem stepWk_nclean {nm : Nat} {p p' : NProc} {w i : Nat} {o : Option Nat} {e : Eff}
+    (hs : stepWk nm p w i o = some (e, p')) : NClean p' := by
+  simp [NClean, (stepWk_shape hs).1]
+
+/-- One step of the two-level run changes one shard, by a step of its driver thread or of one of its workers. -/
+theorem nstep_cases {nm : Nat} {c c' : NCSt} {pk : NPick} {e : Eff} (hs : nstep nm c pk = some (e, c')) :
+    ∃ p', c'.procs = upd c.procs pk.k p' ∧
+      (stepMain nm c.sh (c.procs pk.k) pk.fault = some (e, c'.sh, p') ∨
+       (c'.sh = c.sh ∧ ∃ w, stepWk nm (c.procs pk.k) w pk.take pk.fault = some (e, p'))) := by
+  unfold nstep at hs
+  split at hs
+  · split at hs
+    · rename_i e' sh' p' hsm
+      simp only [Option.some.injEq, Prod.mk.injEq] at hs
+      rcases hs with ⟨rfl, rfl⟩
+      exact ⟨p', rfl, Or.inl hsm⟩
+    · cases hs
+  · split at hs
+    · rename_i e' p' hsw
+      simp only [Option.some.injEq, Prod.mk.injEq] at hs
+      rcases hs with ⟨rfl, rfl⟩
+      exact ⟨p', rfl, Or.inr ⟨rfl, _, hsw⟩⟩
+    · cases hs
+
+/-- A property of single shards that every step of a thread of the shard keeps is kept by a step of the run. -/
+theorem nstep_lift {nm : Nat} {c c' : NCSt} {pk : NPick} {e : Eff} {Q : NProc → Prop}
+    (hs : nstep nm c pk = some (e, c')) (k : Nat) (hQ : Q (c.procs k))
+    (hm : ∀ sh' p', stepMain nm c.sh (c.procs pk.k) pk.fault = some (e, sh', p') → Q (c.procs pk.k) → Q p')
+    (hw : ∀ w p', stepWk nm (c.procs pk.k) w pk.take pk.fault = some (e, p') → Q (c.procs pk.k) → Q p') :
+    Q (c'.procs k) := by
+  rcases nstep_cases hs with ⟨p', hp, h⟩
+  rw [hp]
+  by_cases hk : k = pk.k
+  · subst hk
+    rw [upd_same]
+    rcases h with h | ⟨_, w, h⟩
+    · exact hm _ p' h hQ
+    · exact hw w p' h hQ
+  · rw [upd_ne _ _ hk]; exact hQ
+
+/-- Generic invariant rule for a two-level schedule: `P` is kept by every step that satisfies `ok`. -/
+theorem nrun_gen (nm : Nat) {P : NCSt → Prop} (ok : Eff → Bool → Bool)
+    (hstep : ∀ c pk e c', P c → nstep nm c pk = some (e, c') → ok e pk.fault.isSome = true → P c') :
+    ∀ (sched : List NPick) (c : NCSt), P c →
+      (∀ st ∈ (nrun nm sched c).1, ok st.eff st.failed = true) → P (nrun nm sched c).2
+  | [], c, hc, _ => by simpa [nrun] using hc
+  | pk :: r, c, hc, hok => by
+    cases hn : nstep nm c pk with
+    | none =>
+      simp only [nrun, hn] at hok ⊢
+      exact nrun_gen nm ok hstep r c hc hok
+    | some ec =>
+      obtain ⟨e, c'⟩ := ec
+      simp only [nrun, hn] at hok ⊢
+      have h1 := hstep c pk e c' hc hn (hok ⟨pk.k, pk.w, e, pk.fault.isSome, c'⟩ (List.mem_cons_self ..))
+      exact nrun_gen nm ok hstep r c' h1 (fun st hst => hok st (List.mem_cons_of_mem _ hst))
+
+/-- An exception that is in flight in a shard stays with it to the end of the run. -/
+theorem nrun_exc_persist (nm : Nat) (k : Nat) (sched : List NPick) (c : NCSt) (h : NExc (c.procs k)) :
+    NExc ((nrun nm sched c).2.procs k) :=
+  nrun_gen nm (P := fun c => NExc (c.procs k)) (fun _ _ => true)
+    (fun _ _ _ _ hc hs _ => nstep_lift (Q := NExc) hs k hc (fun _ _ h hq => stepMain_nexc h hq)
+      (fun _ _ h hq => stepWk_nexc h hq))
+    sched c h (fun _ _ => rfl)
+
+/-- A failed effect of any thread of a shard: the shard's save raises at the end of the run. -/
+theorem nrun_failed_exc (nm : Nat) : ∀ (sched : List NPick) (c : NCSt),
+    ∀ st ∈ (nrun nm sched c).1, st.failed = true → NExc ((nrun nm sched c).2.procs st.k)
+  | [], _, st, hst, _ => by simp [nrun] at hst
+  | pk :: r, c, st, hst, hf => by
+    cases hn : nstep nm c pk with
+    | none =>
+      simp only [nrun, hn] at hst ⊢
+      exact nrun_failed_exc nm r c st hst hf
+    | some ec =>
+      obtain ⟨e, c'⟩ := ec
+      simp only [nrun, hn] at hst ⊢
+      simp only [List.mem_cons] at hst
+      rcases hst with rfl | hst
+      · simp only at hf ⊢
+        apply nrun_exc_persist nm pk.k r c'
+        rcases nstep_cases hn with ⟨p', hp, h⟩
+        rw [hp, upd_same]
+        rcases h with h | ⟨_, w, h⟩
+        · exact stepMain_fault h hf
+        · exact stepWk_fault h hf
+      · exact nrun_failed_exc nm r c' st hst hf
+
+/-- No effect failed: nothing raised in any shard. -/
+theorem nrun_nnoexc (nm : Nat) (sched : List NPick) (c : NCSt) (h : ∀ k, NNoExc (c.procs k))
+    (hno : ∀ st ∈ (nrun nm sched c).1, st.failed = false) : ∀ k, NNoExc ((nrun nm sched c).2.procs k) :=
+  nrun_gen nm (P := fun c => ∀ k, NNoExc (c.procs k)) (fun _ b => !b)
+    (fun _ pk _ _ hc hs hok k => by
+      have ho : pk.fault = none := by
+        cases hf : pk.fault with
+        | none => rfl
+        | some q => simp [hf] at hok
+      exact nstep_lift (Q := NNoExc) hs k (hc k)
+        (fun _ _ h hq => stepMain_nnoexc h ho hq) (fun _ _ h hq => stepWk_nnoexc h ho hq))
+    sched c h (fun st hst => by simp [hno st hst])
+
+/-- No clean-up effect failed: `NClean` holds for every shard at the end. -/
+theorem nrun_nclean (nm : Nat) (sched : List NPick) (c : NCSt) (h : ∀ k, NClean (c.procs k))
+    (hcl : ∀ st ∈ (nrun nm sched c).1, st.failed = true → st.eff ≠ .removeTmp ∧ st.eff ≠ .rmdirTmp) :
+    ∀ k, NClean ((nrun nm sched c).2.procs k) :=
+  nrun_gen nm (P := fun c => ∀ k, NClean (c.procs k)) (fun e b => !b || (e != .removeTmp && e != .rmdirTmp))
+    (fun _ pk e _ hc hs hok k =>
+      nstep_lift (Q := NClean) hs k (hc k)
+        (fun _ _ h hq => stepMain_nclean h hq (fun ho => by
+          simp only [ho, Bool.not_true, Bool.false_or, Bool.and_eq_true, bne_iff_ne, ne_eq] at hok
+          exact hok))
+        (fun _ _ h _ => stepWk_nclean h))
+    sched c h (fun st hst => by
+      cases hf : st.failed with
+      | false => rfl
+      | true =>
+        have := hcl st hst hf
+        simp [this.1, this.2])
+
+/-! ### The shared world of the two-level run, for ANY jobs (no `jobOk`) -/
+
+/-- A step of the driver thread changes the shared world only by `os.replace`. -/
+theorem stepMain_sh {nm : Nat} {sh sh' : St} {p0 p' : NProc} {o : Option Nat} {e : Eff}
+    (hs : stepMain nm sh p0 o = some (e, sh', p')) :
+    p'.job = p0.job ∧ (sh' = sh ∨ sh' = (publish p0.job.dest sh (settle p0).loc).1) := by
+  have hj := settle_job p0
+  unfold stepMain at hs
+  generalize settle p0 = p at hs hj
+  dsimp only at hs
+  split at hs <;> (try cases hs) <;> simp_all
+
+theorem stepWk_job {nm : Nat} {p p' : NProc} {w i : Nat} {o : Option Nat} {e : Eff}
+    (hs : stepWk nm p w i o = some (e, p')) : p'.job = p.job := by
+  unfold stepWk at hs
+  split at hs
+  · simp only [] at hs
+    split at hs
+    · simp only [Option.some.injEq, Prod.mk.injEq] at hs
+      rcases hs with ⟨_, rfl⟩
+      rw [(doWk_pc nm _ _ o).2, (start_pc _ w i).2, settle1_job]
+    · cases hs
+  · cases hs
+
+theorem stepMain_done {nm : Nat} {sh : St} {p : NProc} {o : Option Nat} {b : Bool} (h : p.pc = .done b) :
+    stepMain nm sh p o = none := by
+  unfold stepMain settle settle1 settle2 settle3
+  simp [h]
+
+theorem stepWk_done {nm : Nat} {p : NProc} {w i : Nat} {o : Option Nat} {b : Bool} (h : p.pc = .done b) :
+    stepWk nm p w i o = none := by
+  unfold stepWk settle1
+  simp [h]
+
+/-- What holds of the shared world in every state of the two-level run, whatever the jobs are: files that
+existed keep inode, bytes and mode; a caller name is what it was or a shard destination naming a new inode. -/
+structure NShInv (jobs : List NJob) (s0 : St) (c : NCSt) : Prop where
+  jobOf : ∀ k, (c.procs k).job = (initNProcs jobs k).job
+  out : ∀ k, jobs.length ≤ k → (c.procs k).pc = .done false
+  data : ∀ i, i < s0.fs.next → c.sh.fs.data i = s0.fs.data i
+  mode : ∀ i, i < s0.fs.next → c.sh.fs.mode i = s0.fs.mode i
+  next : s0.fs.next ≤ c.sh.fs.next
+  named : ∀ p i, c.sh.fs.file p = some i → i < c.sh.fs.next
+  each : ∀ n, c.sh.fs.file (.user n) = s0.fs.file (.user n) ∨
+    ∃ j ∈ jobs, j.dest = n ∧ ∃ i, c.sh.fs.file (.user n) = some i ∧ s0.fs.next ≤ i
+  valid : c.sh.valid = s0.valid
+  mapped : c.sh.mapped = s0.mapped
+
+theorem nshinv_init (jobs : List NJob) (s0 : St) (h0 : WF s0) : NShInv jobs s0 ⟨s0, initNProcs jobs⟩ where
+  jobOf := fun _ => rfl
+  out := fun k hk => by
+    simp only [initNProcs]
+    rw [List.getElem?_eq_none hk]
+  data := fun _ _ => rfl
+  mode := fun _ _ => rfl
+  next := Nat.le_refl _
+  named := h0.named
+  each := fun _ => Or.inl rfl
+  valid := rfl
+  mapped := rfl
+
+theorem nshinv_step (nm : Nat) (jobs : List NJob) (s0 : St) (c c' : NCSt) (pk : NPick) (e : Eff)
+    (h : NShInv jobs s0 c) (hs : nstep nm c pk = some (e, c')) : NShInv jobs s0 c' := by
+  rcases nstep_cases hs with ⟨p', hp, hcase⟩
+  have hk : pk.k < jobs.length := by
+    apply Nat.lt_of_not_le
+    intro hle
+    have hpc := h.out pk.k hle
+    rcases hcase with h1 | ⟨_, w, h1⟩
+    · rw [stepMain_done hpc] at h1; cases h1
+    · rw [stepWk_done hpc] at h1; cases h1
+  have hjm : (c.procs pk.k).job ∈ jobs := by rw [h.jobOf pk.k]; exact initNProcs_job_mem jobs pk.k hk
+  have hj : p'.job = (c.procs pk.k).job := by
+    rcases hcase with h1 | ⟨_, w, h1⟩
+    · exact (stepMain_sh h1).1
+    · exact stepWk_job h1
+  have f1 : ∀ k', (c'.procs k').job = (initNProcs jobs k').job := by
+    intro k'
+    rw [hp]
+    by_cases hkk : k' = pk.k
+    · subst hkk; rw [upd_same, hj]; exact h.jobOf _
+    · rw [upd_ne _ _ hkk]; exact h.jobOf k'
+  have f2 : ∀ k', jobs.length ≤ k' → (c'.procs k').pc = .done false := by
+    intro k' hk'
+    have : k' ≠ pk.k := by omega
+    rw [hp, upd_ne _ _ this]; exact h.out k' hk'
+  have hsh : c'.sh = c.sh ∨ c'.sh = (publish (c.procs pk.k).job.dest c.sh (settle (c.procs pk.k)).loc).1 := by
+    rcases hcase with h1 | ⟨h1, _⟩
+    · exact (stepMain_sh h1).2
+    · exact Or.inl h1
+  clear hcase hs
+  obtain ⟨sh', pr'⟩ := c'
+  dsimp only at hsh f1 f2
+  rcases hsh with hsh | hsh
+  · subst hsh
+    exact ⟨f1, f2, h.data, h.mode, h.next, h.named, h.each, h.valid, h.mapped⟩
+  · unfold publish at hsh
+    cases ht : (settle (c.procs pk.k)).loc.fs.file .tmpFile with
+    | none =>
+      simp only [ht] at hsh
+      subst hsh
+      exact ⟨f1, f2, h.data, h.mode, h.next, h.named, h.each, h.valid, h.mapped⟩
+    | some t =>
+      simp only [ht] at hsh
+      subst hsh
+      refine ⟨f1, f2, ?_, ?_, ?_, ?_, ?_, h.valid, h.mapped⟩
+      · intro i hi'
+        have := h.next
+        have : i ≠ c.sh.fs.next := by omega
+        simp [upd, this, h.data i hi']
+      · intro i hi'
+        have := h.next
+        have : i ≠ c.sh.fs.next := by omega
+        simp [upd, this, h.mode i hi']
+      · have := h.next
+        show s0.fs.next ≤ c.sh.fs.next + 1
+        omega
+      · intro p i hp'
+        show i < c.sh.fs.next + 1
+        simp only [upd] at hp'
+        split at hp'
+        · simp at hp'; omega
+        · have := h.named p i hp'; omega
+      · intro n
+        by_cases hn : n = (c.procs pk.k).job.dest
+        · right
+          exact ⟨(c.procs pk.k).job, hjm, hn.symm, c.sh.fs.next, by simp [upd, hn], h.next⟩
+        · rcases h.each n with ho | ⟨j, hj', hjd, i, hi', hlo⟩
+          · left
+            simpa [upd, hn] using ho
+          · right
+            exact ⟨j, hj', hjd, i, by simpa [upd, hn] using hi', hlo⟩
+
+theorem nrun_shinv (nm : Nat) (jobs : List NJob) (s0 : St) (h0 : WF s0) (sched : List NPick) :
+    NShInv jobs s0 (nrun nm sched ⟨s0, initNProcs jobs⟩).2 :=
+  nrun_gen nm (P := NShInv jobs s0) (fun _ _ => true)
+    (fun c pk e c' hc hs _ => nshinv_step nm jobs s0 c c' pk e hc hs)
+    sched _ (nshinv_init jobs s0 h0) (fun _ _ => rfl)
+
 end IrVerif.AtomicSave
